@@ -246,6 +246,9 @@ func (ble *BleStruct) handleNewManufacturerData(deviceConfig DeviceConfig, rawBy
 	ctrStream := cipher.NewCTR(block, ivBytes)
 	ctrStream.XORKeyStream(decryptedBytes, paddedEncryptedBytes)
 
+	// the padding is only needed for the cipher, it is not part of the record
+	decryptedBytes = decryptedBytes[:len(encryptedBytes)]
+
 	log.Printf("ble[%s]->%s: decryptedBytes=%x, len=%d",
 		ble.cfg.Name(), deviceConfig.Name(), decryptedBytes, len(decryptedBytes),
 	)
